@@ -152,20 +152,18 @@ theorem parseNum_lift (v : Bytes) :
   | nil => rfl
   | cons c r =>
     simp only
-    split
-    · rfl
-    · cases parseIntLit (c :: r) with
-      | some k => rfl
-      | none =>
-        show primT.parseFloat (c :: r) = match parseLit (c :: r) with
-          | .val x => .val (some x)
-          | .notNum => .notNum
-          | .unmodelled w => .unmodelled w
-        unfold parseLit
-        show (match F64.parseFloat (c :: r) with
-          | some v => NumRes.val (some v)
-          | none => NumRes.notNum) = _
-        cases F64.parseFloat (c :: r) <;> rfl
+    cases parseIntU (c :: r) with
+    | some k => rfl
+    | none =>
+      show primT.parseFloat (c :: r) = match parseLit (c :: r) with
+        | .val x => .val (some x)
+        | .notNum => .notNum
+        | .unmodelled w => .unmodelled w
+      unfold parseLit
+      show (match F64.parseFloat (c :: r) with
+        | some v => NumRes.val (some v)
+        | none => NumRes.notNum) = _
+      cases F64.parseFloat (c :: r) <;> rfl
 
 theorem classifyE_lift (v : Bytes) :
     classifyE arithT v = (classifyE (arith L) v).map liftAtom := by
